@@ -1389,3 +1389,45 @@ def inter_gallery_case(job):
                 "steps": [["arc x rectangle edge at heights", [str(h) for h in hs]]], "machinery": None}
     except BaseException:  # noqa
         return {"universe": "gallery", "real": numtype, "case": "ig", "fails": [], "stats": {}, "wall": time.time() - t0, "machinery": traceback.format_exc()}
+
+
+# ------------------------------------------------------------------ C11 invalid arguments
+@guarded
+def badargs_case(job, t0):
+    """in-place transformations with invalid arguments must raise and leave the shape unchanged
+    (every combination of a valid and an invalid argument, shapes of every kind)"""
+    uname, rname, reg, opts = job
+    st, real, w = _w(uname, rname)
+    fails = []
+    bad_values = ["a", None, [1], (1, 2), {}]
+    calls = []
+    for b in bad_values:
+        calls += [("move", (b, 1)), ("move", (1, b)), ("move", (b,)), ("scale", (b, 2)), ("scale", (3, b)), ("rotate", (b,)), ("rotate", (b, True))]
+    calls += [("move", (1, 2, 3)), ("scale", (2,)), ("scale", ())]
+    n = 0
+    for meth, args in calls:
+        if meth == "move" and args in (((1, 2),), ([1],)) :
+            continue
+        obj = w.canonical(reg)
+        float(obj)
+        snap = w.snapshot(obj)
+        try:
+            getattr(obj, meth)(*args)
+            # move((1, 2)) style calls are valid spellings of a point: accept when nothing is malformed
+            raised = False
+        except BaseException:  # noqa
+            raised = True
+        n += 1
+        if not raised:
+            ok_spelling = meth == "move" and len(args) == 1 and isinstance(args[0], (tuple, list)) and len(args[0]) == 2
+            if not ok_spelling:
+                fails.append(Failure("C11", "invalid arguments accepted by an in-place transformation", call=meth, args=repr(args), reg=reg))
+            continue
+        if w.snapshot(obj) != snap:
+            fails.append(Failure("C11", "a rejected in-place transformation changed the shape", call=meth, args=repr(args), reg=reg))
+        else:
+            ff = w.compare(obj, {"reg": reg, "frame": ()}, deep=False, tags={"region": "C11", "kind": "C11"})
+            fails.extend(ff)
+    r = _result(uname, rname, "bad:%d" % reg, fails, t0, [["MakeRegion", [1, reg]], ["BadTransform*", n]])
+    r["stats"] = {"calls": n}
+    return r
